@@ -18,6 +18,14 @@ Line-protocol front end of the C11 model (requests after the leading `C11` field
   vmseq  <mods> <back> <tables> <evals>      → evaluations on ONE reused VM (Model.vmEval = vmBegin / vmAccess): tables joined by `/`,
                                                eval item `k~access`; per evaluation `impl:spec`
 
+  hostseq <adopt> <heap> <mods> <back> <builds>
+                                             → configurations built one after the other in ONE world whose host maps have identity
+                                               (Model.runBuilds; adopt = 0: the code as it is).  heap/mods: `id:table|…`; builds
+                                               joined by `/`, each `opts~dflt~rev`; option item `G;id` = WithGlobals(host map id)
+                                               (an id that is not in the heap = the nil map).  Reply: per build (joined by `/`)
+                                               `visible-right-after-the-build~ownGlobals (Spec)~visible-at-the-end~heap-after-the-build`,
+                                               then the final heap and the final module heap
+
 Option item: `g;xname;id` (WithGlobal), `d;xname` (WithoutGlobal), `o;xname;id` (WithGlobalOverride), `n`
 (WithoutDefaultGlobals).
 Lists: items joined by `,`, `-` = empty.  Names are `x` + lowercase hex of the bytes.
@@ -235,6 +243,42 @@ def handleVmSeq (mods back tables evals : String) : String :=
     "ok\t" ++ joinOr (evals.foldl step (VM.empty, [])).2
   | _, _, _, _ => "error\tbad-vmseq-request"
 
+def parseHOpt (s : String) : Option HOpt :=
+  match s.splitOn ";" with
+  | ["G", h] => h.toNat?.map .globalsMap
+  | _ => (parseOpt s).map .opt
+
+def parseBuild (heap : List (Id × Table)) (adopt : Bool) (s : String) : Option Build :=
+  match s.splitOn "~" with
+  | [opts, dflt, rev] => do
+    let opts ← (items opts).mapM parseHOpt
+    let dflt ← parseTable dflt
+    -- the iteration orders of the denylist / overrides maps: as the options left them, or reversed
+    let c := (opts.foldl (applyHOpt adopt) ⟨heap, none, Cfg.empty⟩).c
+    let ds := if rev == "1" then c.denylist.reverse else c.denylist
+    let os := if rev == "1" then c.overrides.reverse else c.overrides
+    pure ⟨opts, dflt, [], [], ds, os⟩
+  | _ => none
+
+def handleHostSeq (adopt heap mods back builds : String) : String :=
+  let ad := adopt == "1"
+  match parseMods heap, parseMods mods, parseBack back with
+  | some heap, some mods, some back =>
+    -- a build's denylist/override orders are read off the fold over the heap AS IT IS THEN
+    let step (acc : World × List (Build × Built × List (Id × Table)) × Bool) (b : String) :=
+      match parseBuild acc.1.heap ad b with
+      | some bd =>
+        let r := build ad acc.1 bd
+        (r.1, acc.2.1 ++ [(bd, r.2, r.1.heap)], acc.2.2)
+      | none => (acc.1, acc.2.1, false)
+    let fin := (builds.splitOn "/").foldl step (⟨heap, mods, back⟩, [], true)
+    if !fin.2.2 then "error\tbad-hostseq-build" else
+    let outs := fin.2.1.map fun x =>
+      showTable (x.2.1.visible x.2.2) ++ "~" ++ showTable (ownGlobals heap x.1) ++ "~" ++
+        showTable (x.2.1.visible fin.1.heap) ++ "~" ++ showMods x.2.2
+    "ok\t" ++ "/".intercalate outs ++ "\t" ++ showMods fin.1.heap ++ "\t" ++ showMods fin.1.mods
+  | _, _, _ => "error\tbad-hostseq-request"
+
 def handle : List String → String
   | ["universe"] => joinOr (Risor.Generated.C11.attrUniverse.map fun n => showName (strBytes n))
   | ["facts"] =>
@@ -252,6 +296,7 @@ def handle : List String → String
   | ["optcfg", dflt, mods, back, opts, rev, accs] => handleOptCfg dflt mods back opts rev accs
   | ["optspec", opts, bs] => handleOptSpec opts bs
   | ["vmseq", mods, back, tables, evals] => handleVmSeq mods back tables evals
+  | ["hostseq", adopt, heap, mods, back, builds] => handleHostSeq adopt heap mods back builds
   | ["shared", a, b, ex] =>
     match parseIds a, parseIds b, parseIds ex with
     | some a, some b, some ex => "ok\t" ++ joinOr ((sharedIds a b ex).map toString)
